@@ -132,6 +132,13 @@ class SymPattern:
         if len(tree) != 1 or tree[0][0] not in (sre_c.IN, sre_c.LITERAL, sre_c.NOT_LITERAL, sre_c.ANY, sre_c.CATEGORY):
             raise Unsupported("pattern not a single char class: %r" % pat.pattern)
         self.vals = {v for v in range(256) if pat.fullmatch(bytes([v]))}
+    def __getattr__(self, name):
+        real = getattr(self.pat, name)
+        if not callable(real): return real
+        def call(s, *a, **k):
+            if isinstance(s, (bytes, bytearray)): return real(s, *a, **k)
+            raise Unsupported("re.Pattern.%s on symbolic bytes" % name)
+        return call
     def search(self, s, pos=0):
         if isinstance(s, (bytes, bytearray)): return self.pat.search(s, pos)
         for j in range(pos, len(s)):
@@ -243,6 +250,15 @@ class SymRegex:
     """general shim (first-match semantics of a backtracking engine, like sre)"""
     def __init__(self, pat):
         self.pat = pat; self.nodes = list(sre_parse.parse(pat.pattern, pat.flags))
+    def __getattr__(self, name):
+        # a regex method the shim does not model (findall, split, ...): concrete arguments go to the real pattern, symbolic ones end the job as inconclusive
+        # (an AttributeError here would be taken for an exception of the code under test)
+        real = getattr(self.pat, name)
+        if not callable(real): return real
+        def call(s, *a, **k):
+            if isinstance(s, (bytes, bytearray)): return real(s, *a, **k)
+            raise Unsupported("re.Pattern.%s on symbolic bytes" % name)
+        return call
     def _at(self, s, pos):
         for e in _match_seq(self.nodes, 0, s, pos): return e
         return None
